@@ -1515,15 +1515,9 @@ theorem supers_good {rx : String → String → Bool} {w : World} (hinv : w.Inv 
   obtain ⟨c, _, hc⟩ := List.mem_map.1 hm
   exact hinv c n h hc
 
-/-- an `add_parameter` whose merge raised -/
-def addFailed (op : Op) (o : StepObs) : Bool :=
-  match op, o.outcome with
-  | .addParam .., .mergeError .. => true
-  | _, _ => false
-
 theorem step_preserves_inv (rx : String → String → Bool)
     (hctor : ∀ op name d own, construct rx op name d = .ok own → OwnValid rx own)
-    (i : Nat) (w : World) (op : Op) (hinv : w.Inv rx) (hadd : addFailed op (step rx i w op).2 = false) :
+    (i : Nat) (w : World) (op : Op) (hinv : w.Inv rx) :
     (step rx i w op).1.Inv rx := by
   cases op with
   | declare cls mro decls =>
@@ -1557,44 +1551,72 @@ theorem step_preserves_inv (rx : String → String → Bool)
                     exact inherit_ok_good rx i n q _ (hctor i n d q hcd) (fun h hm => supers_good hinv tail n hm) hok
               · exact hinv c' n p hp
   | addParam cls name decl =>
-    simp only [step] at hadd ⊢
+    simp only [step]
     cases hm : w.mro cls with
     | none => exact hinv
     | some m =>
-      simp only [hm] at hadd ⊢
+      simp only []
       cases hc : construct rx i name decl with
       | error e => exact hinv
       | ok raw =>
-        simp only [hc] at hadd ⊢
-        intro c' n p hp
-        simp only [] at hp
-        split at hp
-        · cases hp
-          have hok : (inherit rx i name raw (w.supers m.tail name)).outcome = .ok := by
-            cases ho : (inherit rx i name raw (w.supers m.tail name)).outcome with
-            | ok => rfl
-            | _ => simp [addFailed, ho] at hadd
-          exact inherit_ok_good rx i name raw _ (hctor i name decl raw hc) (fun h hm => supers_good hinv _ name hm) hok
-        · exact hinv c' n p hp
-
-/-- no `add_parameter` of the history failed -/
-def noFailedAdd (rx : String → String → Bool) : List Op → Nat → World → Bool
-  | [], _, _ => true
-  | op :: rest, i, w =>
-    let r := step rx i w op
-    !addFailed op r.2 && noFailedAdd rx rest (i + 1) r.1
+        simp only []
+        cases ho : (inherit rx i name raw (w.supers m.tail name)).outcome == Outcome.ok with
+        | false => simp only [Bool.false_eq_true, if_false]; exact hinv
+        | true =>
+          simp only [if_true]
+          intro c' n p hp
+          simp only [] at hp
+          split at hp
+          · cases hp
+            exact inherit_ok_good rx i name raw _ (hctor i name decl raw hc)
+              (fun h hm => supers_good hinv _ name hm) (by simpa using ho)
+          · exact hinv c' n p hp
 
 theorem run_preserves_inv (rx : String → String → Bool)
     (hctor : ∀ op name d own, construct rx op name d = .ok own → OwnValid rx own) :
-    ∀ (ops : List Op) (i : Nat) (w : World) (acc : List StepObs), w.Inv rx → noFailedAdd rx ops i w = true →
+    ∀ (ops : List Op) (i : Nat) (w : World) (acc : List StepObs), w.Inv rx →
       (run rx ops i w acc).1.Inv rx
-  | [], _, _, _, hinv, _ => hinv
-  | op :: rest, i, w, acc, hinv, hno => by
-    simp only [noFailedAdd, Bool.and_eq_true, Bool.not_eq_true'] at hno
+  | [], _, _, _, hinv => hinv
+  | op :: rest, i, w, acc, hinv => by
     simp only [run]
-    exact run_preserves_inv rx hctor rest (i + 1) _ _ (step_preserves_inv rx hctor i w op hinv hno.1) hno.2
+    exact run_preserves_inv rx hctor rest (i + 1) _ _ (step_preserves_inv rx hctor i w op hinv)
 
-
+/-- an operation that raised (class creation or `add_parameter`) or was skipped changes nothing -/
+theorem step_not_ok_unchanged (rx : String → String → Bool) (i : Nat) (w : World) (op : Op)
+    (h : (step rx i w op).2.outcome ≠ .ok) : (step rx i w op).1 = w := by
+  cases op with
+  | declare cls mro decls =>
+    unfold step at h ⊢
+    cases mro with
+    | nil => rfl
+    | cons c tail =>
+      simp only [] at h ⊢
+      split
+      · rfl
+      · rename_i hcond
+        simp only [hcond] at h
+        cases hca : constructAll rx i decls 0 [] with
+        | error e => obtain ⟨a, b, c'⟩ := e; rfl
+        | ok raws =>
+          simp only [hca] at h ⊢
+          cases hma : mergeAll rx i w tail raws 0 [] with
+          | mk merged fail =>
+            cases fail with
+            | some f => obtain ⟨a, b⟩ := f; rfl
+            | none => simp [hma] at h
+  | addParam cls name decl =>
+    simp only [step] at h ⊢
+    cases hm : w.mro cls with
+    | none => rfl
+    | some m =>
+      simp only [hm] at h ⊢
+      cases hc : construct rx i name decl with
+      | error e => rfl
+      | ok raw =>
+        simp only [hc] at h ⊢
+        cases ho : (inherit rx i name raw (w.supers m.tail name)).outcome == Outcome.ok with
+        | false => simp only [Bool.false_eq_true, if_false]
+        | true => simp [ho] at h
 
 /-! ### the Selector constructor -/
 
